@@ -107,6 +107,11 @@ func harnessDirs() map[string][]string {
 	return out
 }
 
+// excludedHarnessFiles holds harness files (virtual paths) that do not type-check against the current tree, e.g.
+// because the tree renamed or removed something they refer to: they are left out, their harnesses are reported
+// as inconclusive and the other harnesses still run
+var excludedHarnessFiles = map[string]bool{}
+
 // buildOverlay returns virtual path -> content for all harness packages (withTest adds the replay test driver)
 func buildOverlay(withTest bool, funcsByPkg map[string][]string) map[string][]byte {
 	ov := map[string][]byte{}
@@ -135,7 +140,11 @@ func buildOverlay(withTest bool, funcsByPkg map[string][]string) map[string][]by
 					continue
 				}
 			}
-			ov[filepath.Join(repoDir, dir, "zz_verif_"+filepath.Base(f))] = src
+			vp := filepath.Join(repoDir, dir, "zz_verif_"+filepath.Base(f))
+			if excludedHarnessFiles[vp] {
+				continue
+			}
+			ov[vp] = src
 		}
 		ov[filepath.Join(repoDir, dir, "zz_verif_rt.go")] = []byte(strings.Replace(string(rt), "PKGNAME", pkgName, 1))
 		if withTest {
@@ -160,8 +169,6 @@ func buildOverlay(withTest bool, funcsByPkg map[string][]string) map[string][]by
 
 func loadProgram(pkgDirs []string) (*ssa.Program, map[string]*ssa.Package, float64) {
 	t0 := time.Now()
-	cfg := &packages.Config{Mode: packages.LoadAllSyntax, Dir: repoDir, Overlay: buildOverlay(false, nil),
-		Env: append(os.Environ(), "GOFLAGS=-mod=mod", "GOPROXY=off", "GOSUMDB=off", "GOTOOLCHAIN=local")}
 	var pats []string
 	for _, d := range pkgDirs {
 		if d == "." {
@@ -170,19 +177,39 @@ func loadProgram(pkgDirs []string) (*ssa.Program, map[string]*ssa.Package, float
 			pats = append(pats, "./"+d)
 		}
 	}
-	pkgs, err := packages.Load(cfg, pats...)
-	if err != nil {
-		fatal("load: %v", err)
-	}
-	bad := false
-	packages.Visit(pkgs, nil, func(p *packages.Package) {
-		for _, e := range p.Errors {
-			fmt.Fprintln(os.Stderr, "LOAD-ERROR", e)
-			bad = true
+	var pkgs []*packages.Package
+	for attempt := 0; ; attempt++ {
+		cfg := &packages.Config{Mode: packages.LoadAllSyntax, Dir: repoDir, Overlay: buildOverlay(false, nil),
+			Env: append(os.Environ(), "GOFLAGS=-mod=mod", "GOPROXY=off", "GOSUMDB=off", "GOTOOLCHAIN=local")}
+		var err error
+		pkgs, err = packages.Load(cfg, pats...)
+		if err != nil {
+			fatal("load: %v", err)
 		}
-	})
-	if bad {
-		fatal("package errors (harness does not compile against the current tree)")
+		bad, excludedNow := false, 0
+		packages.Visit(pkgs, nil, func(p *packages.Package) {
+			for _, e := range p.Errors {
+				fmt.Fprintln(os.Stderr, "LOAD-ERROR", e)
+				bad = true
+				// an error inside a harness file (not the runtime): leave that file out and try again
+				file := e.Pos
+				if i := strings.Index(file, ".go:"); i >= 0 {
+					file = file[:i+3]
+				}
+				base := filepath.Base(file)
+				if strings.HasPrefix(base, "zz_verif_") && base != "zz_verif_rt.go" && base != "zz_verif_helpers.go" && !excludedHarnessFiles[file] {
+					excludedHarnessFiles[file] = true
+					excludedNow++
+				}
+			}
+		})
+		if !bad {
+			break
+		}
+		if excludedNow == 0 || attempt >= 8 {
+			fatal("package errors (harness does not compile against the current tree)")
+		}
+		fmt.Fprintf(os.Stderr, "gosym: %d harness file(s) do not compile against the current tree and are left out; loading again\n", excludedNow)
 	}
 	prog, spkgs := ssautil.AllPackages(pkgs, ssa.InstantiateGenerics)
 	prog.Build()
